@@ -108,11 +108,9 @@ where
         I: IntoIterator<Item = (K, V)>,
     {
         let iter = iter.into_iter();
-        let mut args = if let Some(size) = iter.size_hint().1 {
-            FluentArgs::with_capacity(size)
-        } else {
-            FluentArgs::new()
-        };
+        // Reserve for the lower bound only: the upper bound of a size hint may exceed the
+        // number of items by any amount (e.g. `(0..usize::MAX).filter(..)`).
+        let mut args = FluentArgs::with_capacity(iter.size_hint().0);
 
         for (k, v) in iter {
             args.set(k, v);
